@@ -273,9 +273,14 @@ func (mc *Machine) ActDropIndex(t *rapid.T, mirrors ...*column.Collection) {
 	}
 	i := rapid.IntRange(0, len(mc.Indexes)-1).Draw(t, "drop-ix")
 	ix := mc.Indexes[i].Spec
-	mc.logf("dropIndex %s", ix.Name)
+	// "DropColumn removes the column (or an index) with the specified name": the other documented way
+	viaDropColumn := rapid.IntRange(0, 2).Draw(t, "via-DropColumn") == 0
+	mc.logf("dropIndex %s%s", ix.Name, map[bool]string{true: " (with DropColumn)", false: ""}[viaDropColumn])
 	for _, c := range append([]*column.Collection{mc.C}, mirrors...) {
-		if err := c.DropIndex(ix.Name); err != nil {
+		if viaDropColumn {
+			c.DropColumn(ix.Name)
+			mc.flag("index-dropped-with-DropColumn")
+		} else if err := c.DropIndex(ix.Name); err != nil {
 			mc.fail(t, "DropIndex(%s): %v", ix.Name, err)
 		}
 	}
